@@ -384,7 +384,7 @@ def c12_units(tier, seed):
     ys2 = [2020] if q else [15, 1990, 2020, 2033, 9000]
     for Y in ys2:
         for I in ((0, 1, 5, 9) if q else range(10)):
-            for bm in (2, 11):
+            for bm in (1, 2, 11):  # a birth before Lichun (the chart's year pillar is still the previous year's), after it, late in the year
                 for fwd in (0, 1):
                     us.append(dict(id=f"C12b[Y={Y},I={I},bm={bm},fwd={fwd}]", harness="calendar.VH_C12_Chain", params={"Y": Y, "I": I, "BM": bm, "FWD": fwd}))
     return us
@@ -408,7 +408,7 @@ PROPS["C16"] = dict(units=c16_units, bounds_text="every second of each listed ci
 
 def c08_units(tier, seed):
     q = tier == "quick"
-    us = [dict(id=f"C08a[sect={s},base={b}]", harness="calendar.VH_C08_Field", params={"Y": b, "SECT": s}) for s in (1, 2) for b in ((2020,) if q else (2020, 1990, 15))]
+    us = [dict(id=f"C08a[sect={s},base={b}]", harness="calendar.VH_C08_Field", params={"Y": b, "SECT": s}) for s in (1, 2) for b in ((2020,) if q else (2020, 2024, 15))]
     ys = year_set(tier, seed, budget_quick=6) if q else year_set(tier, seed, thin=12)
     for Y in ys:
         for m in range(1, 13):
@@ -447,7 +447,7 @@ def list_units(pid):
 def c11_units(tier, seed):
     q = tier == "quick"
     us = []
-    for b in ((2020,) if q else (2020, 1990, 15)):
+    for b in ((2020, 2024) if q else (2020, 2024, 1984, 1990, 15)):
         for s in (1, 2):
             us.append(dict(id=f"C11a[sect={s},base={b}]", harness="calendar.VH_C11_Routes", params={"Y": b, "SECT": s}))
             us.append(dict(id=f"C11b[sect={s},base={b}]", harness="calendar.VH_C11_PillarPure", params={"Y": b, "SECT": s}))
@@ -460,13 +460,13 @@ def c11_units(tier, seed):
 def c18_units(tier, seed):
     q = tier == "quick"
     us = []
-    for b in ((2020,) if q else (2020, 1990, 15)):
+    for b in ((2020, 2024) if q else (2020, 2024, 1984, 1990, 15)):
         us.append(dict(id=f"C18a[base={b}]", harness="calendar.VH_C18_Pure", params={"Y": b}))
         us.append(dict(id=f"C18b[base={b}]", harness="calendar.VH_C18_Laws", params={"Y": b}))
     us.append(dict(id="C18c", harness="calendar.VH_C18_Tables", params={}))
     us += list_units("C18d")
     # the hour object's attributes by (early-rat day pillar, hour pillar); the chart's attributes by its pillars (same units as C11b)
-    for b in ((2020,) if q else (2020, 1990, 15)):
+    for b in ((2020, 2024) if q else (2020, 2024, 1984, 1990, 15)):
         us.append(dict(id=f"C18e[base={b}]", harness="calendar.VH_C18_TimePure", params={"Y": b}))
         for sect in (1, 2):
             us.append(dict(id=f"C18f[sect={sect},base={b}]", harness="calendar.VH_C11_PillarPure", params={"Y": b, "SECT": sect}))
